@@ -326,7 +326,7 @@ pub fn write_replay(id: &str, v: &Violation) -> PathBuf {
 }
 
 #[derive(Debug)]
-enum SoloOutcome {
+pub enum SoloOutcome {
     Pass,
     Fail(String, String),
     Known(String),
@@ -336,7 +336,7 @@ enum SoloOutcome {
 }
 
 /// Runs one case alone in a fresh process under CPU and address-space limits.
-fn solo_process(id: &str, case_file: &Path, cpu_limit_s: u64) -> SoloOutcome {
+pub fn solo_process(id: &str, case_file: &Path, cpu_limit_s: u64) -> SoloOutcome {
     use std::os::unix::process::CommandExt;
     use std::os::unix::process::ExitStatusExt;
     let mut cmd = Command::new(exe());
